@@ -145,6 +145,11 @@ class PropertyRun:
         for (off, part), r in zip(spans, results):
             self.states += r.distinct
             self.transitions += r.generated
+            for tag in ("WRONGFIELDS", "INFO"):
+                for item in r.printed(tag):
+                    self.detail.setdefault("tlc_" + tag.lower(), []).append(repr(item[1:])[:500])
+                    if tag == "WRONGFIELDS" and item[1]:
+                        print(f"  TLC: reconstructed fields that disagree with the configuration: {sorted(item[1])}")
             v = r.printed("VERDICT")
             if not v:
                 raise tlc.MachineryError(f"{name}: TLC printed no verdict:\n" + r.out[-3000:])
